@@ -687,6 +687,8 @@ pub struct Knobs {
     pub custom_templates: bool,
     pub circomlib_names: bool,
     pub early_return: bool,
+    /// rarely give a definition two parameters with one name (a CFG-stage report)
+    pub dup_params: bool,
     /// literals are drawn modulo this prime family: 0 = bn254
     pub prime: usize,
 }
@@ -721,6 +723,7 @@ impl Knobs {
             custom_templates: b(1, 8),
             circomlib_names: b(1, 4),
             early_return: b(1, 4),
+            dup_params: b(1, 6),
             max_stmts: 2 + rng.usize(14),
             max_depth: rng.usize(4),
             expr_depth: 1 + rng.usize(3),
@@ -779,6 +782,8 @@ struct CompInfo {
 pub struct Registry {
     pub templates: Vec<Def>, // signatures only are used
     pub functions: Vec<(String, usize)>,
+    /// canonical IsZero / Num2Bits / Bits2Num / LessThan are defined in the project
+    pub has_circomlib: bool,
 }
 
 struct Ctx<'a> {
@@ -1212,7 +1217,7 @@ impl<'a> Ctx<'a> {
                         let is_arr = self.k.arrays && self.rng.chance(1, 4);
                         if is_arr {
                             let size = 1 + self.rng.usize(3);
-                            let init = if self.rng.chance(1, 3) {
+                            let init = if self.rng.chance(9, 10) {
                                 Some(Expr::Array((0..size).map(|_| self.expr(1, 0)).collect()))
                             } else {
                                 None
@@ -1220,7 +1225,7 @@ impl<'a> Ctx<'a> {
                             items.push(DeclItem { name: name.clone(), dims: vec![Expr::Num(format!("{size}"))], init });
                             self.declare_var(&name, 1, size);
                         } else {
-                            let init = if self.rng.chance(4, 5) {
+                            let init = if self.rng.chance(19, 20) {
                                 let mode = if self.in_function || self.rng.chance(3, 4) { 0 } else { 1 };
                                 Some(self.expr(ed, mode))
                             } else {
@@ -1334,6 +1339,11 @@ impl<'a> Ctx<'a> {
                         return s;
                     }
                 }
+                12 | 13 if !self.in_function && self.reg.has_circomlib && depth == 0 => {
+                    if let Some(s) = self.idiom() {
+                        return s;
+                    }
+                }
                 10 if can_nest && self.rng.chance(1, 3) => {
                     self.push_scope();
                     let n = 1 + self.rng.usize(2);
@@ -1348,6 +1358,98 @@ impl<'a> Ctx<'a> {
             }
         }
         self.simple_stmt()
+    }
+
+    /// Circomlib idioms the analysis passes key on: a `<--` division guarded (or not)
+    /// by IsZero instances, LessThan with (or without) Num2Bits range checks on its
+    /// inputs, and binary conversions of various widths. Several instances may share
+    /// one input, with and without their outputs constrained.
+    fn idiom(&mut self) -> Option<Stmt> {
+        let a = self.sig_read()?;
+        let b = self.sig_read()?;
+        self.fresh += 1;
+        let id = self.fresh;
+        let mut stmts: Vec<Stmt> = Vec::new();
+        let port = |c: &str, p: &str| Expr::Access(c.to_string(), vec![Acc::Port(p.to_string())]);
+        let port_i = |c: &str, p: &str, i: usize| {
+            Expr::Access(c.to_string(), vec![Acc::Port(p.to_string()), Acc::Idx(Expr::Num(format!("{i}")))])
+        };
+        let comp = |name: &str, t: &str, args: Vec<Expr>| Stmt::Decl {
+            kw: DeclKw::Component,
+            items: vec![DeclItem { name: name.to_string(), dims: vec![], init: Some(Expr::Call(t.to_string(), args)) }],
+            init_op: "=",
+        };
+        let widths = ["8", "32", "252", "253", "254", "255", "64"];
+        match self.rng.usize(4) {
+            0 => {
+                // q <-- a / b with 0..2 IsZero guards on b
+                let q = format!("quot{id}");
+                stmts.push(Stmt::Decl {
+                    kw: DeclKw::Signal { io: None, tags: vec![] },
+                    items: vec![DeclItem { name: q.clone(), dims: vec![], init: Some(Expr::Infix(Box::new(a.clone()), "/", Box::new(b.clone()))) }],
+                    init_op: "<--",
+                });
+                self.sigs.push(SigInfo { name: q.clone(), io: 2, dims: 0, size: 0, assigned: true });
+                stmts.push(Stmt::ConstraintEq(Expr::Infix(Box::new(Expr::Var(q)), "*", Box::new(b.clone())), a.clone()));
+                let n = self.rng.usize(3);
+                for j in 0..n {
+                    let c = format!("iz{id}_{j}");
+                    stmts.push(comp(&c, "IsZero", vec![]));
+                    stmts.push(Stmt::Assign { lhs: port(&c, "in"), op: "<==", rhs: b.clone(), reversed: false });
+                    if self.rng.chance(1, 2) {
+                        stmts.push(Stmt::ConstraintEq(port(&c, "out"), Expr::Num("0".into())));
+                    }
+                }
+            }
+            1 => {
+                // LessThan with optional range checks on the inputs
+                let w = *self.rng.pick(&widths);
+                let c = format!("lt{id}");
+                stmts.push(comp(&c, "LessThan", vec![Expr::Num(w.to_string())]));
+                stmts.push(Stmt::Assign { lhs: port_i(&c, "in", 0), op: "<==", rhs: a.clone(), reversed: false });
+                stmts.push(Stmt::Assign { lhs: port_i(&c, "in", 1), op: "<==", rhs: b.clone(), reversed: false });
+                for (j, x) in [a.clone(), b.clone()].iter().enumerate() {
+                    if self.rng.chance(1, 2) {
+                        let nb = format!("rc{id}_{j}");
+                        let w2 = *self.rng.pick(&widths);
+                        stmts.push(comp(&nb, "Num2Bits", vec![Expr::Num(w2.to_string())]));
+                        stmts.push(Stmt::Assign { lhs: port(&nb, "in"), op: "<==", rhs: x.clone(), reversed: false });
+                    }
+                }
+                if self.rng.chance(1, 2) {
+                    stmts.push(Stmt::ConstraintEq(port(&c, "out"), Expr::Num("1".into())));
+                }
+            }
+            2 => {
+                let w = if self.rng.chance(1, 4) { self.var_read().unwrap_or(Expr::Num("254".into())) } else { Expr::Num(self.rng.pick(&widths).to_string()) };
+                let c = format!("nb{id}");
+                stmts.push(comp(&c, "Num2Bits", vec![w]));
+                stmts.push(Stmt::Assign { lhs: port(&c, "in"), op: "<==", rhs: a.clone(), reversed: false });
+                if self.rng.chance(1, 2) {
+                    stmts.push(Stmt::ConstraintEq(port_i(&c, "out", 0), b.clone()));
+                }
+            }
+            _ => {
+                let w = *self.rng.pick(&["2", "3", "254", "255"]);
+                let c = format!("bn{id}");
+                stmts.push(comp(&c, "Bits2Num", vec![Expr::Num(w.to_string())]));
+                stmts.push(Stmt::Assign { lhs: port_i(&c, "in", 0), op: "<==", rhs: a.clone(), reversed: false });
+                stmts.push(Stmt::Assign { lhs: port_i(&c, "in", 1), op: "<==", rhs: b.clone(), reversed: false });
+                if self.rng.chance(1, 2) {
+                    stmts.push(Stmt::ConstraintEq(port(&c, "out"), a.clone()));
+                }
+            }
+        }
+        for r in ["IsZero", "LessThan", "Num2Bits", "Bits2Num"] {
+            if !self.refs.iter().any(|x| x == r) {
+                self.refs.push(r.to_string());
+            }
+        }
+        let mut toks = Vec::new();
+        for s in &stmts {
+            stmt_tokens(s, &mut toks);
+        }
+        Some(Stmt::Raw(toks))
     }
 
     fn component_block(&mut self) -> Option<Stmt> {
@@ -1497,6 +1599,56 @@ fn splice_raw(stmts: Vec<Stmt>) -> Vec<Stmt> {
     stmts
 }
 
+/// Canonical Circomlib templates (bodies as in circomlib, shapes the passes expect).
+pub fn circomlib_defs() -> Vec<Def> {
+    fn raw(name: &str, params: &[&str], src: &str, inputs: Vec<Port>, outputs: Vec<Port>, refs: &[&str]) -> Def {
+        Def {
+            kind: DefKind::Template { custom: false, parallel: false },
+            name: name.to_string(),
+            params: params.iter().map(|s| s.to_string()).collect(),
+            body: vec![Stmt::Raw(src.split_whitespace().map(|s| s.to_string()).collect())],
+            inputs,
+            outputs,
+            refs: refs.iter().map(|s| s.to_string()).collect(),
+        }
+    }
+    let p = |n: &str, d: Vec<usize>| Port { name: n.to_string(), dims: d };
+    vec![
+        raw(
+            "IsZero",
+            &[],
+            "signal input in ; signal output out ; signal inv ; inv <-- in != 0 ? 1 / in : 0 ; out <== - in * inv + 1 ; in * out === 0 ;",
+            vec![p("in", vec![])],
+            vec![p("out", vec![])],
+            &[],
+        ),
+        raw(
+            "Num2Bits",
+            &["n"],
+            "signal input in ; signal output out [ n ] ; var lc1 = 0 ; var e2 = 1 ; for ( var i = 0 ; i < n ; i ++ ) { out [ i ] <-- ( in >> i ) & 1 ; out [ i ] * ( out [ i ] - 1 ) === 0 ; lc1 += out [ i ] * e2 ; e2 = e2 + e2 ; } lc1 === in ;",
+            vec![p("in", vec![])],
+            vec![p("out", vec![2])],
+            &[],
+        ),
+        raw(
+            "Bits2Num",
+            &["n"],
+            "signal input in [ n ] ; signal output out ; var lc1 = 0 ; var e2 = 1 ; for ( var i = 0 ; i < n ; i ++ ) { lc1 += in [ i ] * e2 ; e2 = e2 + e2 ; } lc1 ==> out ;",
+            vec![p("in", vec![2])],
+            vec![p("out", vec![])],
+            &[],
+        ),
+        raw(
+            "LessThan",
+            &["n"],
+            "assert ( n <= 252 ) ; signal input in [ 2 ] ; signal output out ; component n2b = Num2Bits ( n + 1 ) ; n2b . in <== in [ 0 ] + ( 1 << n ) - in [ 1 ] ; out <== 1 - n2b . out [ n ] ;",
+            vec![p("in", vec![2])],
+            vec![p("out", vec![])],
+            &["Num2Bits"],
+        ),
+    ]
+}
+
 pub fn gen_function(rng: &mut Rng, k: &Knobs, reg: &Registry, name: &str) -> Def {
     let nparams = rng.usize(4);
     let params: Vec<String> = ["a", "b", "n", "m"].iter().take(nparams).map(|s| s.to_string()).collect();
@@ -1526,7 +1678,10 @@ pub fn gen_function(rng: &mut Rng, k: &Knobs, reg: &Registry, name: &str) -> Def
 
 pub fn gen_template(rng: &mut Rng, k: &Knobs, reg: &Registry, name: &str) -> Def {
     let nparams = rng.usize(3);
-    let params: Vec<String> = ["n", "m"].iter().take(nparams).map(|s| s.to_string()).collect();
+    let mut params: Vec<String> = ["n", "m"].iter().take(nparams).map(|s| s.to_string()).collect();
+    if k.dup_params && nparams == 2 && rng.chance(1, 4) {
+        params[1] = params[0].clone();
+    }
     let custom = k.custom_templates && rng.chance(1, 3);
     let parallel = rng.chance(1, 12);
     // ports
@@ -1598,7 +1753,7 @@ pub fn gen_template(rng: &mut Rng, k: &Knobs, reg: &Registry, name: &str) -> Def
 
 /// A single definition for the library tier (C14, C20): either kind.
 pub fn gen_single_def(rng: &mut Rng, k: &Knobs) -> Def {
-    let reg = Registry { templates: vec![leaf_template("Leaf")], functions: vec![("g".into(), 1)] };
+    let reg = Registry { templates: vec![leaf_template("Leaf")], functions: vec![("g".into(), 1)], has_circomlib: false };
     if rng.chance(1, 2) {
         gen_function(rng, k, &reg, "f")
     } else {
@@ -1645,6 +1800,13 @@ pub fn gen_project(rng: &mut Rng, k: &Knobs, shape: &ProjectShape) -> Project {
     let mut reg = Registry::default();
     let mut defs: Vec<Def> = Vec::new();
     let mut used_names: Vec<String> = Vec::new();
+    let with_lib = k.circomlib_names && k.components && rng.chance(2, 3);
+    if with_lib {
+        reg.has_circomlib = true;
+        for d in circomlib_defs() {
+            used_names.push(d.name.clone());
+        }
+    }
     for _ in 0..n_defs {
         let is_fn = rng.chance(1, 3);
         if is_fn {
@@ -1690,6 +1852,17 @@ pub fn gen_project(rng: &mut Rng, k: &Knobs, shape: &ProjectShape) -> Project {
         def_file.insert(d.name.clone(), fi);
         files[fi].defs.push(d);
     }
+    let mut n_files = n_files;
+    if with_lib {
+        // the canonical templates live in their own file (usually only included)
+        let li = files.len();
+        files.push(FileUnit { path: "circomlib.circom".to_string(), ..Default::default() });
+        for d in circomlib_defs() {
+            def_file.insert(d.name.clone(), li);
+            files[li].defs.push(d);
+        }
+        n_files += 1;
+    }
     // includes: every file includes the files that define what it references, plus a chain for reachability
     for fi in 0..n_files {
         let mut incs: Vec<usize> = Vec::new();
@@ -1702,7 +1875,7 @@ pub fn gen_project(rng: &mut Rng, k: &Knobs, shape: &ProjectShape) -> Project {
                 }
             }
         }
-        if fi + 1 < n_files && !incs.contains(&(fi + 1)) && rng.chance(2, 3) {
+        if fi + 1 < n_files && files[fi + 1].path != "circomlib.circom" && !incs.contains(&(fi + 1)) && rng.chance(2, 3) {
             incs.push(fi + 1);
         }
         let paths: Vec<String> = incs.iter().map(|&o| files[o].path.clone()).collect();
@@ -1742,14 +1915,66 @@ pub fn gen_project(rng: &mut Rng, k: &Knobs, shape: &ProjectShape) -> Project {
     Project { files, named, libs: vec![] }
 }
 
+/// Where each definition ended up: file -> (kind, name, first line, last line), 1-based.
+#[derive(Clone, Debug, Default)]
+pub struct Layout {
+    pub defs: BTreeMap<String, Vec<(String, String, usize, usize)>>,
+}
+
+impl Layout {
+    pub fn def_at(&self, path: &str, line: usize) -> Option<&(String, String, usize, usize)> {
+        self.defs.get(path).and_then(|v| v.iter().find(|d| d.2 <= line && line <= d.3))
+    }
+}
+
 impl Project {
     pub fn render(&self, rng: &mut Rng, style: &Style) -> crate::world::World {
+        self.render_with_layout(rng, style).0
+    }
+
+    /// Render every file piecewise (header, each definition, main) so that the
+    /// line range of every definition is known.
+    pub fn render_with_layout(&self, rng: &mut Rng, style: &Style) -> (crate::world::World, Layout) {
         let mut w = crate::world::World::default();
+        let mut layout = Layout::default();
         for f in &self.files {
-            let text = render_file(f, style, rng);
+            let mut text = String::new();
+            let mut head = f.clone();
+            head.defs.clear();
+            head.main = None;
+            let mut toks = Vec::new();
+            file_tokens(&head, &mut toks);
+            if !toks.is_empty() {
+                text.push_str(&render(&toks, style, rng));
+            }
+            let mut entries = Vec::new();
+            let base = rng.clone();
+            for d in &f.defs {
+                let mut toks = Vec::new();
+                def_tokens(d, &mut toks);
+                // layout choices of a definition depend only on its name, so that
+                // reordering or adding definitions leaves every other text unchanged
+                let mut dr = base.sub(&format!("def:{}", d.name));
+                let t = render(&toks, style, &mut dr);
+                let start = text.matches('\n').count() + 1;
+                text.push_str(&t);
+                let end = text.matches('\n').count();
+                entries.push((d.kind_str().to_string(), d.name.clone(), start, end));
+            }
+            if f.main.is_some() {
+                let mut tail = FileUnit::default();
+                tail.main = f.main.clone();
+                let mut toks = Vec::new();
+                file_tokens(&tail, &mut toks);
+                text.push_str(&render(&toks, style, rng));
+            }
+            if text.is_empty() {
+                text.push('\n');
+            }
+            layout.defs.insert(f.path.clone(), entries);
             w.put(&f.path, &text);
         }
-        w
+        (w, layout)
     }
     pub fn named_paths(&self) -> Vec<String> {
         self.named.iter().map(|&i| self.files[i].path.clone()).collect()
